@@ -29,4 +29,109 @@ theorem wf_get (r : R) (h : WF r) (i : Nat) : r.pts.getD i 0 < 65536 := by
   · simp only [List.getD_eq_getElem?_getD, List.getElem?_eq_none (by omega : r.pts.length ≤ i), Option.getD_none]
     omega
 
+/-- Chunks of a list in which every chunk except possibly the last holds exactly `cs` items, and the
+    last one at most `cs`. -/
+def Uniform (cs : Nat) : List (List Int) → Prop
+  | [] => True
+  | [c] => c.length ≤ cs
+  | c :: c' :: rest => c.length = cs ∧ Uniform cs (c' :: rest)
+
+/-- Indexing a uniformly chunked list by division and remainder is indexing the flat list. -/
+theorem uniform_get (cs : Nat) (hcs : 0 < cs) :
+    ∀ (l : List (List Int)) (j : Nat), Uniform cs l → (l[j / cs]?).bind (·[j % cs]?) = l.flatten[j]?
+  | [], j, _ => by simp
+  | [c], j, h => by
+    simp only [Uniform] at h
+    simp only [List.flatten_cons, List.flatten_nil, List.append_nil]
+    by_cases hj : j < cs
+    · have h0 : j / cs = 0 := Nat.div_eq_of_lt hj
+      have h1 : j % cs = j := Nat.mod_eq_of_lt hj
+      simp [h0, h1]
+    · have h0 : 0 < j / cs := Nat.div_pos (by omega) hcs
+      have : [c][j / cs]? = none := by
+        rw [List.getElem?_eq_none]; simp; omega
+      rw [this, Option.bind_none]
+      rw [List.getElem?_eq_none]; omega
+  | c :: c' :: rest, j, h => by
+    obtain ⟨hc, hrest⟩ := h
+    simp only [List.flatten_cons]
+    by_cases hj : j < cs
+    · have h0 : j / cs = 0 := Nat.div_eq_of_lt hj
+      have h1 : j % cs = j := Nat.mod_eq_of_lt hj
+      simp only [h0, h1, List.getElem?_cons_zero, Option.bind_some]
+      rw [List.getElem?_append_left (by omega)]
+    · have hge : cs ≤ j := by omega
+      have hd : j / cs = (j - cs) / cs + 1 := by
+        have := Nat.sub_add_cancel hge
+        conv => lhs; rw [← this]
+        exact Nat.add_div_right _ hcs
+      have hm : j % cs = (j - cs) % cs := by
+        have := Nat.sub_add_cancel hge
+        conv => lhs; rw [← this]
+        exact Nat.add_mod_right _ _
+      rw [hd, hm, List.getElem?_cons_succ]
+      rw [List.getElem?_append_right (by omega), hc]
+      have ih := uniform_get cs hcs (c' :: rest) (j - cs) hrest
+      simp only [List.flatten_cons] at ih
+      exact ih
+
+/-- The chunk layouts a snapshot can have: the first chunk possibly partial (after --tail trimming),
+    every chunk between it and the last one full, the last one at most full. -/
+def Layout (cs : Nat) : List (List Int) → Prop
+  | [] => True
+  | first :: rest => first.length ≤ cs ∧ Uniform cs rest
+
+theorem sum_length_flatten (l : List (List Int)) : (l.map List.length).sum = l.flatten.length := by
+  induction l with
+  | nil => rfl
+  | cons c l ih => simp only [List.map_cons, List.sum_cons, List.flatten_cons, List.length_append, ih]
+
+theorem passGet_fwd (cs : Nat) (hcs : 0 < cs) (chunks : List (List Int)) (h : Layout cs chunks) (idx : Nat) :
+    passGet cs chunks false idx = chunks.flatten[idx]? := by
+  unfold passGet
+  simp only [Bool.false_eq_true, if_false]
+  have hnn : ¬ ((idx : Int) < 0) := by omega
+  simp only [hnn, if_false, Int.toNat_natCast]
+  cases chunks with
+  | nil => simp
+  | cons first rest =>
+    obtain ⟨hf, hu⟩ := h
+    simp only [List.flatten_cons]
+    by_cases hA : first.length < cs ∧ idx ≥ first.length
+    · rw [if_pos hA, List.getElem?_cons_succ, uniform_get cs hcs rest _ hu]
+      rw [List.getElem?_append_right hA.2]
+    · rw [if_neg hA]
+      by_cases hfull : first.length = cs
+      · have hU : Uniform cs (first :: rest) := by
+          cases rest with
+          | nil => simp only [Uniform]; omega
+          | cons c r => exact ⟨hfull, hu⟩
+        have := uniform_get cs hcs (first :: rest) idx hU
+        simpa using this
+      · have hlt : idx < first.length := by omega
+        have hcsi : idx < cs := by omega
+        have h0 : idx / cs = 0 := Nat.div_eq_of_lt hcsi
+        have h1 : idx % cs = idx := Nat.mod_eq_of_lt hcsi
+        simp only [h0, h1, List.getElem?_cons_zero, Option.bind_some]
+        rw [List.getElem?_append_left hlt]
+
+theorem passGet_tac (cs : Nat) (hcs : 0 < cs) (chunks : List (List Int)) (h : Layout cs chunks) (idx : Nat) :
+    passGet cs chunks true idx = chunks.flatten.reverse[idx]? := by
+  have hsum := sum_length_flatten chunks
+  by_cases hidx : idx < chunks.flatten.length
+  · have hf := passGet_fwd cs hcs chunks h (chunks.flatten.length - 1 - idx)
+    unfold passGet at hf ⊢
+    simp only [Bool.false_eq_true, if_false, if_true] at hf ⊢
+    rw [hsum]
+    have e1 : ((chunks.flatten.length : Int) - (idx : Int) - 1) = ((chunks.flatten.length - 1 - idx : Nat) : Int) := by omega
+    rw [e1]
+    rw [List.getElem?_reverse hidx]
+    exact hf
+  · unfold passGet
+    simp only [if_true]
+    rw [hsum]
+    have : ((chunks.flatten.length : Int) - (idx : Int) - 1) < 0 := by omega
+    simp only [this, if_true]
+    rw [List.getElem?_eq_none (by simp; omega)]
+
 end Fzf.Rank
